@@ -86,6 +86,9 @@ func infoFromCell(cell *hrpc.Cell) (hrpc.RegionInfo, error) {
 		return nil, fmt.Errorf("unsupported region info version %d in %q", value[0], cell)
 	}
 	const pbufMagic = 1346524486 // 4 bytes: "PBUF"
+	if len(value) < 4 {
+		return nil, fmt.Errorf("region info is too short in %q", cell)
+	}
 	magic := binary.BigEndian.Uint32(value[:4])
 	if magic != pbufMagic {
 		return nil, fmt.Errorf("invalid magic number in %q", cell)
@@ -94,6 +97,9 @@ func infoFromCell(cell *hrpc.Cell) (hrpc.RegionInfo, error) {
 	err := proto.Unmarshal(value[4:], &regInfo)
 	if err != nil {
 		return nil, fmt.Errorf("failed to decode %q: %s", cell, err)
+	}
+	if regInfo.TableName == nil {
+		return nil, fmt.Errorf("region info without a table name in %q", cell)
 	}
 	if regInfo.GetOffline() {
 		return nil, OfflineRegionError{n: string(cell.Row)}
